@@ -167,6 +167,18 @@ Theorem C17_set_functions_no_panic : forall (A K E : Type) (keyf : A -> outcome 
   (forall arr, clean (std_min_array_idx keyf cmp arr)) /\ (forall arr, clean (std_max_array_idx keyf cmp arr)).
 Proof. exact set_functions_clean. Qed.
 
+(* ================= the function the correspondence check runs ================= *)
+
+(* [run_sort], the extracted entry point compared with the evaluator on every run, returns on
+   every script of number keys the stable sorted permutation (no hypothesis left) *)
+Theorem C17_run_sort_numkeys_spec : forall ranks : list N,
+  exists p, run_sort (num_script ranks) = Ok p /\
+    Permutation p (seq 0 (length ranks)) /\
+    StronglySorted (fun i j => (nth i ranks 0 <= nth j ranks 0)%N) p /\
+    (forall r, filter (fun i => N.eqb r (nth i ranks 0%N)) p =
+               filter (fun i => N.eqb r (nth i ranks 0%N)) (seq 0 (length ranks))).
+Proof. exact run_sort_numkeys_spec. Qed.
+
 (* ================= non-vacuity (wire instance, number keys) ================= *)
 
 (* 70 keys with 5 distinct values: merge and quick paths; the hypotheses of the sort
@@ -263,6 +275,7 @@ Print Assumptions C17_member_spec.
 Print Assumptions C17_minArray_first_min.
 Print Assumptions C17_maxArray_first_max.
 Print Assumptions C17_set_functions_no_panic.
+Print Assumptions C17_run_sort_numkeys_spec.
 Print Assumptions C17_nonvacuous_sort.
 Print Assumptions C17_nonvacuous_uniq.
 Print Assumptions C17_nonvacuous_sets.
